@@ -74,6 +74,16 @@ class ZkServer:
         self.on_op = None           # yield hook(client, op, path)
         self.lock = threading.RLock()
         self.keep_log = True
+        # order in which clients see children: 'sorted', or 'hash' (a real server returns them in no
+        # particular order; deterministic pseudo-random order here)
+        self.child_order = 'sorted'
+        self.order_salt = ''
+
+    def _listing(self, names):
+        if self.child_order == 'hash':
+            import hashlib
+            return sorted(names, key=lambda n: hashlib.md5((self.order_salt + n).encode()).hexdigest())
+        return sorted(names)
 
     def _now(self):
         return int(self.clock() * 1000)
@@ -363,7 +373,7 @@ class ZkFakeClient:
             if node is None:
                 raise kx.NoNodeError()
             self._watch(srv.child_watches, path, watch)
-            kids = sorted(node.children)
+            kids = srv._listing(node.children)
             if include_data:
                 return kids, node.stat()
             return kids
